@@ -17,7 +17,7 @@
     NOT covered by the theorem: specs with a "--" atom (crossing the atom turns what is left into
     positionals), lines with an unreadable or Q1 token; covered on every run by the derivation oracle
     ([RefSem.r_match] with the observed bindings as target) on the implementation. *)
-From MowCli Require Import Base Nfa Matchers Apply Values Flow Cmd View ApplyProofs ValueProofs ViewProofs ReadProofs AccountProofs.
+From MowCli Require Import Base Nfa Matchers Apply Values Flow Cmd View ApplyProofs ValueProofs ViewProofs ReadProofs AccountProofs Parser Lexer RefSem SymProofs RefProofs RefProofsT.
 
 Section C02.
   Variable parse_float : str -> option str.
@@ -86,6 +86,40 @@ Theorem C02_after_cmdline_dd_verbatim :
   forall rest, poss (VDD :: map VP rest) = rest /\ forall o, occs o (VDD :: map VP rest) = [].
 Proof. intros rest. split; [apply poss_map_VP | intros o; apply occs_map_VP]. Qed.
 
+(** The oracle that judges the implementation's bound values ("a derivation"): the executable reference matcher run
+    with, for every variable, the list of values observed. For specs without "--" and cleanly read command lines
+    it is proved to say Yes EXACTLY when some sentence reading of the spec binds every listed variable to exactly
+    those values, in order, and binds nothing else ([bound_to], [expected]) — so it is no longer trusted there. *)
+Theorem C02_derivation_oracle_decides :
+  forall D nopts e w u t,
+    seq_has_dd e = false -> erase_all (read (rdecl_of D) w) = Some u ->
+    (r_match (rdecl_of D) (Greedy true) nopts e w t = Yes <->
+     exists bs, VAccepts D nopts e (u, false) bs /\ absorbed bs t).
+Proof. exact r_match_decides_target. Qed.
+
+Theorem C02_absorbed_means_variable_by_variable :
+  forall bs l, NoDup (map fst l) ->
+    (absorbed bs (Some l) <->
+     (forall b, In b bs -> In (fst b) (map fst l)) /\ (forall k, In k (map fst l) -> bound_to k bs = expected k l)).
+Proof. exact absorbed_spec. Qed.
+
+(** ... and it never rejects what the compiled command itself binds (no false alarm of the oracle on a faithful
+    implementation): the bindings of an accepted line, projected on any duplicate-free list of variables covering
+    them, are answered Yes *)
+Theorem C02_derivation_oracle_accepts_the_commands_bindings :
+  forall opts args spec i toks e a u bs keys,
+    compile opts args spec = IOk i ->
+    tokenize spec = LexOk toks ->
+    parse_tokens (lookup_name opts) (lookup_name args) (length spec) toks = ParseOk e ->
+    seq_has_dd e = false -> sane (optinfo_of opts) = true -> view (optinfo_of opts) a = Some u ->
+    fsm_apply (optinfo_of opts) (i_graph i) (i_start i) a = AOk bs ->
+    NoDup keys -> (forall b, In b bs -> In (fst b) keys) ->
+    r_match (rdecl_of (optinfo_of opts)) (Greedy true) (length opts) e a (Some (project keys bs)) = Yes.
+Proof. exact oracle_accepts_the_commands_bindings. Qed.
+
+Print Assumptions C02_derivation_oracle_decides.
+Print Assumptions C02_absorbed_means_variable_by_variable.
+Print Assumptions C02_derivation_oracle_accepts_the_commands_bindings.
 Print Assumptions C02_every_run_accounts.
 Print Assumptions C02_written_values_exactly.
 Print Assumptions C02_after_cmdline_dd_verbatim.
@@ -118,4 +152,18 @@ Example C02_nonvacuous :
     end
   | inr _ => false
   end = true.
+Proof. vm_compute. reflexivity. Qed.
+
+(** the derivation oracle at work: spec "[-o]... X Y" (option 0 valued, arguments 0 and 1), line "-o a -o=b x y": the
+    values observed are accepted, the same values attributed to the wrong variables are not *)
+Example C02_derivation_oracle_example :
+  let D := mkRD (fun n => if str_eqb n (lit "-o") then Some 0 else None) (fun _ => false) (fun _ => false) in
+  let ast := SCons (COne (RAtom (ASq (SCons (COne (RAtom (AOpt 0) false)) SNil)) true))
+                   (SCons (COne (RAtom (AArg 0) false)) (SCons (COne (RAtom (AArg 1) false)) SNil)) in
+  let line := [lit "-o"; lit "a"; lit "-o=b"; lit "x"; lit "y"] in
+  (r_match D (Greedy true) 1 ast line (Some [(KO 0, [lit "a"; lit "b"]); (KA 0, [lit "x"]); (KA 1, [lit "y"])]),
+   r_match D (Greedy true) 1 ast line (Some [(KO 0, [lit "b"; lit "a"]); (KA 0, [lit "x"]); (KA 1, [lit "y"])]),
+   r_match D (Greedy true) 1 ast line (Some [(KO 0, [lit "a"; lit "b"]); (KA 0, [lit "y"]); (KA 1, [lit "x"])]),
+   r_match D (Greedy true) 1 ast line (Some [(KO 0, [lit "a"]); (KA 0, [lit "x"]); (KA 1, [lit "y"])]))
+  = (Yes, No, No, No).
 Proof. vm_compute. reflexivity. Qed.
